@@ -546,6 +546,9 @@ func check(id, tier string) int {
 	// quick: the heaviest checks (C09, C19, C13) need 80-100 s on 16 idle cores; the budget only
 	// matters on a loaded machine, where it turns "exhaustive" into false instead of running on
 	budget := 150
+	if m.ID == "C19" {
+		budget = 240 // twenty scenarios, about 110 s on 16 idle cores
+	}
 	if tier == "thorough" {
 		budget = 1500
 	}
